@@ -679,6 +679,182 @@ pub fn c11(big: bool) -> BoxedStrategy<Case> {
         .boxed()
 }
 
+pub fn c13(big: bool) -> BoxedStrategy<Case> {
+    let max_ops = if big { 16 } else { 10 };
+    let base = OpWeights { send: 22, call: 18, ping: 4, convert: 6, yield_: 6, sleep: 5, give: 1, drop: 5, stop: 4, halt: 1, try_stop: 1, await_: 3, join: 2, max_sleep: 4, ..MSG_WEIGHTS };
+    let op = mixed_ops(
+        base,
+        vec![
+            (22, (any::<u8>(), 0u8..5).prop_map(|(stream, n)| ClientOp::Feed { stream, n }).boxed()),
+            (3, any::<u8>().prop_map(|stream| ClientOp::EndStream { stream }).boxed()),
+        ],
+    );
+    (stream_spawn(), started_with_timers(1), 1usize..=3)
+        .prop_flat_map(move |(spawn, started, n)| {
+            let owning = spawn.owning();
+            (Just(spawn), Just(started), grants(n, owning, 1), vec(vec(op.clone(), 3..=max_ops), n..=n), schedule(if big { 96 } else { 48 }))
+        })
+        .prop_map(|(spawn, started, grants, clients, schedule)| {
+            let mut c = Case {
+                family: Family::C13,
+                actors: one_actor(spawn, Behavior { started, ..Default::default() }),
+                default_beh: vec![],
+                grants,
+                clients,
+                faults: vec![],
+                schedule,
+                settle: 0,
+            };
+            sanitize(&mut c);
+            finalize(c)
+        })
+        .boxed()
+}
+
+pub fn c17(big: bool) -> BoxedStrategy<Case> {
+    let max_ops = if big { 14 } else { 9 };
+    let spawn = prop_oneof![
+        2 => Just(SpawnSpec::SpawnOwning),
+        1 => Just(SpawnSpec::SpawnDefaultOwning),
+        4 => mailbox().prop_map(|mailbox| SpawnSpec::Build { mailbox, strategy: RStrat::Default, timeout: None, fail_on_timeout: false, owning: true }),
+        1 => proptest::option::of(mailbox()).prop_map(|builder| SpawnSpec::Stream { builder, owning: true }),
+    ];
+    let cause = prop_oneof![
+        6 => Just(Cause::None),
+        1 => prop_oneof![Just(FailHow::Err), Just(FailHow::Panic)].prop_map(Cause::StartFail),
+        2 => (0u32..6).prop_map(Cause::HandlerPanic),
+        1 => Just(Cause::StopPanic),
+        1 => (0u32..10).prop_map(Cause::Cancel),
+    ];
+    let base = OpWeights { send: 22, call: 22, ping: 4, convert: 10, yield_: 4, sleep: 3, give: 2, drop: 3, stop: 6, halt: 1, await_: 2, join: 12, consume: 4, detach: 3, max_sleep: 4, ..MSG_WEIGHTS };
+    let op = mixed_ops(base, vec![(5, msg_op(1, 1, ctx_work(3, 3, 0)))]);
+    (spawn, cause, 1usize..=3)
+        .prop_flat_map(move |(spawn, cause, n)| (Just(spawn), Just(cause), grants(n, true, 1), vec(vec(op.clone(), 3..=max_ops), n..=n), schedule(if big { 96 } else { 48 })))
+        .prop_map(|(spawn, cause, grants, clients, schedule)| {
+            let mut faults = vec![];
+            match cause {
+                Cause::StartFail(how) => faults.push(Fault::StartFail { actor: 0, inc: 0, how }),
+                Cause::HandlerPanic(kth) => faults.push(Fault::HandlerPanic { actor: 0, kth }),
+                Cause::StopPanic => faults.push(Fault::StopPanic { actor: 0 }),
+                Cause::Cancel(j) => faults.push(Fault::CancelActor { actor: 0, before_poll: j }),
+                _ => {}
+            }
+            let mut c = Case { family: Family::C17, actors: one_actor(spawn, Behavior::default()), default_beh: vec![], grants, clients, faults, schedule, settle: 0 };
+            sanitize(&mut c);
+            finalize(c)
+        })
+        .boxed()
+}
+
+pub fn c15(big: bool) -> BoxedStrategy<Case> {
+    let max_ops = if big { 14 } else { 9 };
+    let spawn = prop_oneof![
+        1 => Just(SpawnSpec::Spawn),
+        1 => Just(SpawnSpec::SpawnOwning),
+        4 => (mailbox(), any::<bool>()).prop_map(|(mailbox, owning)| SpawnSpec::Build { mailbox, strategy: RStrat::Default, timeout: None, fail_on_timeout: false, owning }),
+    ];
+    let base = OpWeights { send: 16, call: 16, ping: 2, convert: 22, yield_: 4, sleep: 14, give: 3, drop: 10, stop: 0, max_sleep: 10, ..MSG_WEIGHTS };
+    let op = mixed_ops(base, vec![(14, msg_op(1, 2, ctx_work(2, 1, 6))), (10, h().prop_map(|h| ClientOp::Upgrade { h }).boxed())]);
+    let timers = prop_oneof![
+        1 => Just(vec![]),
+        3 => vec((1u32..=12).prop_map(|ticks| Step::AddTimer(TimerSpec { kind: TimerKind::Interval, ticks, work: vec![] })), 1..=2),
+    ];
+    // any non-empty combination of strong kinds, plus weak handles of all kinds
+    let strong = vec(prop_oneof![2 => Just(HKind::Addr), 3 => Just(HKind::Sender), 4 => Just(HKind::Caller)], 1..=3);
+    let weak = vec(prop_oneof![Just(HKind::WeakAddr), Just(HKind::WeakSender), Just(HKind::WeakCaller)], 1..=3);
+    (spawn, timers, 1usize..=2, any::<bool>())
+        .prop_flat_map(move |(spawn, started, n, two)| {
+            (Just(spawn), Just(started), vec((strong.clone(), weak.clone()), n..=n), Just(two), vec(vec(op.clone(), 3..=max_ops), n..=n), schedule(if big { 96 } else { 48 }), any::<bool>())
+        })
+        .prop_map(|(spawn, started, per, two, clients, schedule, give_owning)| {
+            let mut actors = one_actor(spawn.clone(), Behavior { started: started.clone(), ..Default::default() });
+            if two {
+                // a second actor: identity must not be mixed up by conversions
+                actors.push(ActorSpec { kind: 0, spawn: SpawnSpec::Spawn, parent: None, beh: Behavior::default(), peer: None });
+            }
+            let mut grants = vec![];
+            if spawn.owning() && give_owning {
+                grants.push(Grant { client: 0, actor: 0, kind: HKind::Owning });
+            }
+            for (c, (s, w)) in per.into_iter().enumerate() {
+                for kind in s.into_iter().chain(w) {
+                    grants.push(Grant { client: c, actor: 0, kind });
+                }
+                if two {
+                    grants.push(Grant { client: c, actor: 1, kind: HKind::Addr });
+                    grants.push(Grant { client: c, actor: 1, kind: HKind::WeakCaller });
+                }
+            }
+            finalize(Case { family: Family::C15, actors, default_beh: vec![], grants, clients, faults: vec![], schedule, settle: 0 })
+        })
+        .boxed()
+}
+
+pub fn c16(big: bool) -> BoxedStrategy<Case> {
+    let max_ops = if big { 12 } else { 8 };
+    let reg = prop_oneof![Just(ChildReg::Unit), Just(ChildReg::Msg0), Just(ChildReg::Msg1)];
+    let child = (any::<u8>(), reg.clone(), proptest::bool::weighted(0.25), 0u8..2, proptest::option::weighted(0.3, mailbox()));
+    let bcast = (reg, h(), any::<bool>()).prop_map(|(reg, h, call)| {
+        let work = vec![Step::SendToChildren { reg, tag: 0 }];
+        if call { ClientOp::Call { h, work } } else { ClientOp::Send { h, work } }
+    });
+    let base = OpWeights { send: 14, call: 14, ping: 3, convert: 4, yield_: 6, sleep: 8, give: 1, drop: 8, stop: 6, halt: 2, try_stop: 1, await_: 2, max_sleep: 4, ..MSG_WEIGHTS };
+    let op = mixed_ops(base, vec![(30, bcast.boxed()), (4, msg_op(1, 1, ctx_work(2, 3, 0)))]);
+    let cause = prop_oneof![
+        4 => Just(Cause::None),
+        1 => Just(Cause::StartFail(FailHow::Err)),
+        1 => Just(Cause::StartFail(FailHow::Panic)),
+        3 => (0u32..6).prop_map(Cause::HandlerPanic),
+        1 => Just(Cause::StopPanic),
+        2 => (1u32..10).prop_map(Cause::Cancel),
+    ];
+    (vec(child, 1..=5), cause, 1usize..=2, plain_spawn(false))
+        .prop_flat_map(move |(kids, cause, n, root_spawn)| {
+            let owning = root_spawn.owning();
+            (Just(kids), Just(cause), Just(root_spawn), grants(n, owning, 1), vec(vec(op.clone(), 2..=max_ops), n..=n), schedule(if big { 96 } else { 48 }))
+        })
+        .prop_map(|(kids, cause, root_spawn, grants, clients, schedule)| {
+            let mut actors = vec![ActorSpec { kind: 0, spawn: root_spawn, parent: None, beh: Behavior::default(), peer: None }];
+            let mut depths = vec![0usize];
+            for (psel, under, outside, kind, mb) in kids {
+                // parent among the existing nodes with depth < 3
+                let cands: Vec<usize> = (0..actors.len()).filter(|i| depths[*i] < 3).collect();
+                let parent = cands[(psel as usize * cands.len()) >> 8];
+                depths.push(depths[parent] + 1);
+                let spawn = match mb {
+                    None => SpawnSpec::Spawn,
+                    Some(mailbox) => SpawnSpec::Build { mailbox, strategy: RStrat::Default, timeout: None, fail_on_timeout: false, owning: false },
+                };
+                actors.push(ActorSpec { kind, spawn, parent: Some(ChildOf { parent, under, outside }), beh: Behavior::default(), peer: None });
+            }
+            let mut faults = vec![];
+            match cause {
+                Cause::StartFail(how) => faults.push(Fault::StartFail { actor: 0, inc: 0, how }),
+                Cause::HandlerPanic(kth) => faults.push(Fault::HandlerPanic { actor: 0, kth }),
+                Cause::StopPanic => faults.push(Fault::StopPanic { actor: 0 }),
+                Cause::Cancel(j) => faults.push(Fault::CancelActor { actor: 0, before_poll: j }),
+                _ => {}
+            }
+            let mut c = Case { family: Family::C16, actors, default_beh: vec![], grants, clients, faults, schedule, settle: 0 };
+            // unique broadcast tags
+            let mut next = 1;
+            for cl in &mut c.clients {
+                for op in cl.iter_mut() {
+                    if let ClientOp::Send { work, .. } | ClientOp::Call { work, .. } = op {
+                        for s in work.iter_mut() {
+                            if let Step::SendToChildren { tag, .. } = s {
+                                *tag = next;
+                                next += 1;
+                            }
+                        }
+                    }
+                }
+            }
+            finalize(c)
+        })
+        .boxed()
+}
+
 pub fn strategy(family: Family, big: bool) -> BoxedStrategy<Case> {
     match family {
         Family::C01 => c01(big),
@@ -690,6 +866,10 @@ pub fn strategy(family: Family, big: bool) -> BoxedStrategy<Case> {
         Family::C10 => c10(big),
         Family::C11 => c11(big),
         Family::C12 => c12(big),
+        Family::C13 => c13(big),
+        Family::C15 => c15(big),
+        Family::C16 => c16(big),
+        Family::C17 => c17(big),
         _ => c01(big),
     }
 }
